@@ -99,3 +99,15 @@ register(Job("C13", "slow_collab_rhombus_fail", make(lambda: C.rhombus(True), 60
              tier="quick", budget_s=400, parts=[{"rev_taskset": r, "collab_dur": d} for r in range(2) for d in range(4)],
              goals=("cancel_delivered", "no_cancel"),
              doc=doc("rhombus (B, C may fail) + slow events", SYMS + ["duration of every event callback in [0,3]"])))
+
+# one node reached by two sub-DAGs of the same run (two tasks carry its name), and a recurrent driver re-created on every
+# pass: a registry that assumes "one name, one task" loses the task that does the work, and the end of the run no longer
+# reaches it
+register(Job("C13", "switch_shared_case_events", make(C.switch_shared_case, 50, events=True, beh_kw={"dur_nodes": {"X"}}),
+             tier="quick", budget_s=400, parts=REV, goals=("cancel_delivered", "no_cancel", "cancel_while_node_in_flight"),
+             doc=doc("switch_shared_case + events", SYMS)))
+register(Job("C13", "rec_simple2_events_store", make(lambda: C.rec_simple(2, True), 70, events=True, store=True, slow=True,
+                                                     beh_kw={"sym_dur": False}),
+             tier="quick", budget_s=400, parts=[{"rev_taskset": r, "collab_dur": d} for r in range(2) for d in range(3)],
+             goals=("cancel_delivered", "no_cancel"),
+             doc=doc("rec_simple (two iterations) + slow events + slow store", SYMS + ["duration of every collaborator call in [0,2]"])))
